@@ -26,7 +26,7 @@ func (ex *Exec) stagedSoft() []*SoftGroup {
 			pos = len(facts)
 		}
 		for _, depth := range []int{2, 4, 0} {
-			o := &Oblig{Name: ex.fn.QName() + "#lemma:" + sl.Origin, Func: ex.fn.QName(), Kind: "lemma",
+			o := &Oblig{Name: ex.fn.QName() + "#lemma:" + ex.stabilise("lemma", sl.Origin), Info: sl.Origin, Func: ex.fn.QName(), Kind: "lemma",
 				Hyps: facts[:pos], Goal: sl.Goal, Sub: fmt.Sprintf("%s/d%d", ex.pattern, depth), Inputs: ex.inputs,
 				Pattern: ex.pattern, Soft: true, Depth: depth, Group: g}
 			o.Lemmas = append([]*SoftGroup{}, groups...)
